@@ -2,176 +2,260 @@
     untouched), always handed back empty; replaying never writes the directory.
 
     Subject: the Gallina transcription (Dev/DevSession.v) of sqlite
-    Driver.Snapshot, Executor.Replay, DevDriver.NormalizeSchema/NormalizeRealm,
-    DevLoader.LoadChanges and of the session sequences of `migrate validate`,
-    `migrate lint`, `migrate diff`, `schema diff`, `schema apply`.
-    Only statements, [exact] and [Print Assumptions] live here. *)
+    Driver.Snapshot (after fix C14-hidden-table), Executor.Replay,
+    DevDriver.NormalizeSchema/NormalizeRealm, DevLoader.LoadChanges and of the
+    session sequences of `migrate validate`, `migrate lint`, `migrate diff`,
+    `schema diff`, `schema apply`, `schema inspect` and Planner.Checkpoint.
+    Only statements, [exact] and [Print Assumptions] live here.
+
+    "Contains anything" is read as: sqlite_master holds a row that does not
+    belong to a bookkeeping table of the engine ([prop_clean d = false]).
+    sqlite_sequence cannot be dropped by any statement and `atlas schema clean`
+    leaves it (and sqlite_stat1) behind, so a reading that counts them would
+    make Atlas refuse databases it emptied itself; SQLite reserves the prefix
+    "sqlite_" (no user object can carry it).  "Empty" at the end is read
+    strictly: no sqlite_master row at all. *)
 From Coq Require Import List NArith Bool Arith.
 From Atlas Require Import Base.Bytes Dev.DevSession Dev.DevProofs.
 Import ListNotations.
 
-(** 0. What Snapshot calls clean (no table InspectRealm can see, no view, no
-    trigger) against what the property calls clean (no object at all).
-    The verdict is "clean" exactly when every object is a table whose name
-    matches LIKE 'sqlite_%' / 'libsql_%' (invisible to tablesQuery) or an index;
-    on well-formed databases without such a table the two notions coincide. *)
-Theorem C14_clean_gap :
-  forall d : db,
-  code_clean d = true <->
-  (forall o, In o d ->
-     (o_kind o = KTable /\ hidden_name (o_name o) = true) \/ o_kind o = KIndex).
-Proof. exact code_clean_char. Qed.
-
-Theorem C14_clean_coincide :
-  forall d : db, wf_db d -> no_hidden d -> code_clean d = prop_clean d.
-Proof. exact clean_coincide. Qed.
-
-(** 1. Full statement "non-empty => refused and untouched" is FALSE of the
-    code: a dev database holding the user table [libsql_users] with rows is
-    accepted by [migrate validate] and wiped (reproduced on the real CLI,
-    known finding C14-hidden-table). *)
-Definition ex_libsql : bytes := [108; 105; 98; 115; 113; 108; 95; 117]%N.  (* "libsql_u" *)
-Definition ex_t0 : bytes := [116; 48]%N.
-Definition ex_hidden_db : db := [mkObj KTable ex_libsql ex_libsql 2].
-Definition ex_dir : mdir := [mkMFile false [(1, SCreateTable ex_t0); (2, SInsert ex_t0)]].
-
-Theorem C14_refuse_untouched_refuted :
-  exists (d : db) (c : command) (dir : mdir),
-    d <> [] /\ wf_db d /\
-    exists es, run_cmd false c dir SrcNone SrcNone false [] d = (OOk, [], es) /\
-               In (EWrite 1 true) es.
+(** 0. Snapshot's verdict against the property's notion.  Whatever Snapshot
+    accepts holds nothing but engine bookkeeping (no premise); on a
+    sqlite_master-shaped database (tbl_name of a table row is its name) the two
+    notions coincide, i.e. Atlas does not refuse what `schema clean` or SQLite
+    itself leaves behind either. *)
+Theorem C14_clean_sound :
+  forall d : db, code_clean d = true -> forall o, In o d -> bookkeeping o = true.
 Proof.
-  exists ex_hidden_db, CValidate, ex_dir. split; [discriminate|]. split.
-  - intros o [<-|[]] H. discriminate.
-  - eexists. split; [vm_compute; reflexivity|]. simpl. auto.
+  intros d H. apply forallb_forall. exact (code_clean_sound d H).
 Qed.
 
-(** 1'. What does hold, for every command (any session list [ss]), every body
-    and every fault stream: a non-empty well-formed database without a hidden
-    table -- more generally any database Snapshot judges not clean -- is
-    refused by the first session, nothing at all is issued (the event trace is
-    empty: no write, no restore) and the database is returned as it was. *)
-Theorem C14_refuse_untouched_except :
-  forall (d : db) (ss : list body) (fs : list bool),
-  d <> [] -> wf_db d -> no_hidden d ->
-  run_sessions ss fs d = (match ss with [] => OOk | _ => ORefused end, d, fs, []).
+Theorem C14_clean_coincide :
+  forall d : db, wf_db d -> code_clean d = prop_clean d.
+Proof. exact clean_coincide. Qed.
+
+(** 1. Non-empty => refused and completely untouched.  Full statement, for
+    every command (any session list [ss]), every body and all fault streams:
+    if the database holds any object that is not engine bookkeeping, the first
+    session refuses, nothing at all is issued (the event trace is empty: no
+    write, no restore), the database and both fault streams are returned as
+    they were.  (Before fix C14-hidden-table this needed the premise "no table
+    named LIKE 'sqlite_%'/'libsql_%'" and was refuted without it.) *)
+Theorem C14_refuse_untouched :
+  forall (d : db) (ss : list sess) (fs rs : list bool),
+  (exists o, In o d /\ bookkeeping o = false) ->
+  run_sessions ss fs rs d = (match ss with [] => OOk | _ => ORefused end, d, fs, rs, []).
 Proof.
-  intros d ss fs Hne Hwf Hnh.
-  exact (run_sessions_refused ss fs d (nonempty_not_clean d Hwf Hnh Hne)).
+  intros d ss fs rs H. apply run_sessions_refused, not_prop_clean_refused.
+  apply prop_clean_false_iff. exact H.
 Qed.
 
 Theorem C14_refuse_untouched_cmd :
-  forall (norm : bool) (c : command) (dir : mdir) (from to : source) (changes : bool)
-         (fs : list bool) (d : db),
-  code_clean d = false ->
+  forall (norm : normalizer) (c : command) (dir : mdir) (from to : source) (changes : bool)
+         (fs rs : list bool) (d : db),
+  prop_clean d = false ->
   sessions_of norm c dir from to <> [] ->
-  run_cmd norm c dir from to changes fs d = (ORefused, d, []).
+  run_cmd norm c dir from to changes fs rs d = (ORefused, d, []).
 Proof.
-  intros norm c dir from to changes fs d H Hne.
-  rewrite (run_cmd_refused norm c dir from to changes fs d H).
-  destruct (sessions_of norm c dir from to); [congruence|reflexivity].
+  intros norm c dir from to changes fs rs d H Hne.
+  exact (run_cmd_refused norm c dir from to changes fs rs d (not_prop_clean_refused d H) Hne).
 Qed.
 
-(** which commands open at least one session (all of them, except
-    schema diff/apply whose sources are only HCL files on a driver that is
-    not a schema.Normalizer -- SQLite: those never touch the dev database) *)
+(** which commands open at least one session: all of them, except schema
+    diff/apply/inspect none of whose sources needs the dev database (database
+    URLs; HCL files on a driver that is not a schema.Normalizer -- SQLite).
+    Those never touch the dev database (C14_untouched_without_events). *)
 Theorem C14_sessions_nonempty :
   forall norm c dir from to,
   match c with
-  | CValidate | CLint _ | CDiff => True
-  | CSchemaDiff => (exists ss, from = SrcSQL ss) \/ (exists dd, from = SrcDir dd) \/
-                   (exists ss, to = SrcSQL ss) \/ (exists dd, to = SrcDir dd) \/
-                   (norm = true /\ ((exists ts, from = SrcHCL ts) \/ (exists ts, to = SrcHCL ts)))
-  | CSchemaApply => (exists ss, to = SrcSQL ss) \/ (exists dd, to = SrcDir dd) \/
-                    (norm = true /\ exists ts, to = SrcHCL ts)
+  | CValidate | CLint _ | CDiff | CCheckpoint => True
+  | CSchemaDiff => replays from \/ replays to \/ normalizes norm from \/ normalizes norm to
+  | CSchemaApply => replays to \/ normalizes norm to
+  | CSchemaInspect => replays from \/ normalizes norm from
   end -> sessions_of norm c dir from to <> [].
-Proof. exact sessions_of_nonempty_sql. Qed.
+Proof. exact sessions_of_nonempty. Qed.
 
-(** 2. Otherwise the database is handed back empty: for every session list,
-    every body and every fault stream (i.e. whichever statement fails, in
-    whichever session), the final state is empty; and whenever the verdict was
-    "clean" the last thing that happened to the database is the restore. *)
+(** trace level: whatever the command, the sources and the fault streams, the
+    database is exactly what it was unless a write succeeded or a restore
+    reached its DELETE (so a refused or read-only run changes nothing). *)
+Theorem C14_untouched_without_events :
+  forall norm c dir from to changes fs rs d o d' es,
+  run_cmd norm c dir from to changes fs rs d = (o, d', es) ->
+  existsb touching es = false -> d' = d.
+Proof. exact run_cmd_untouched. Qed.
+
+(** 2. Otherwise the database is handed back empty.  For every sequence of
+    sessions (each with restores nested in its body wherever LoadChanges puts
+    them), every accepted start (empty, or engine bookkeeping only), every
+    body and every fault stream [fs] over the replay/normalisation statements
+    -- i.e. whichever statement fails, in whichever session -- the final state
+    is strictly empty, the run ends with a complete restore and is never
+    reported as refused.  [rs = []]: no statement of a RestoreFunc fails. *)
 Theorem C14_handed_back_empty :
-  forall (ss : list body) (fs : list bool) o d' fs' es,
-  run_sessions ss fs [] = (o, d', fs', es) -> d' = [].
-Proof. exact run_sessions_from_empty. Qed.
+  forall (ss : list sess) (fs : list bool) (d : db),
+  code_clean d = true -> ss <> [] ->
+  exists o fs' es, run_sessions ss fs [] d = (o, [], fs', [], es ++ [ERestore 4]) /\
+                   o <> ORefused /\ o <> ORestoreFail.
+Proof. exact run_sessions_nofault. Qed.
 
 Theorem C14_handed_back_empty_cmd :
   forall norm c dir from to changes fs o d' es,
-  run_cmd norm c dir from to changes fs [] = (o, d', es) -> d' = [].
+  run_cmd norm c dir from to changes fs [] [] = (o, d', es) -> d' = [].
 Proof. exact run_cmd_from_empty. Qed.
 
-Theorem C14_restore_always_runs :
-  forall (ss : list body) (fs : list bool) (d : db),
-  code_clean d = true -> ss <> [] ->
-  exists o fs' es, run_sessions ss fs d = (o, [], fs', es ++ [ERestore]) /\ o <> ORefused.
-Proof. exact run_sessions_clean. Qed.
+Theorem C14_handed_back_empty_cmd_bookkeeping :
+  forall norm c dir from to changes fs d o d' es,
+  wf_db d -> prop_clean d = true ->
+  sessions_of norm c dir from to <> [] ->
+  run_cmd norm c dir from to changes fs [] d = (o, d', es) -> d' = [].
+Proof.
+  intros norm c dir from to changes fs d o d' es Hwf Hp Hne.
+  exact (run_cmd_handed_back norm c dir from to changes fs d o d' es
+           (code_clean_complete d Hwf Hp) Hne).
+Qed.
 
-(** 3. No session writes the migration directory; the only directory write
-    of any command is [migrate diff]'s WritePlan, issued after every session
-    has been closed, only on success and only if there is a plan. *)
+(** 2'. Decision recorded for a failing restore (outside the property's
+    quantifier, which ranges over the statements of the replay): for all
+    fault streams, also over the four statements of every RestoreFunc, the
+    last thing that happens to the dev database of an accepted run is a
+    restore; the database is empty iff that restore reached its DELETE
+    (k >= 2: a failing `PRAGMA writable_schema = 0` or VACUUM leaves it
+    logically empty), otherwise it is left as the replay left it -- and then
+    the command reports the restore error, except through NormalizeSchema
+    (unnamed results: the error is dropped), where a following session refuses
+    the dirty database. *)
+Theorem C14_restore_always_runs :
+  forall norm c dir from to changes (fs rs : list bool) (d : db),
+  code_clean d = true -> sessions_of norm c dir from to <> [] ->
+  exists o d' es k tail,
+    run_cmd norm c dir from to changes fs rs d = (o, d', es ++ [ERestore k] ++ tail) /\
+    (2 <= k -> d' = []) /\ (o = ORefused -> k < 2) /\ (tail = [] \/ tail = [EDirWrite]).
+Proof. exact run_cmd_restore_last. Qed.
+
+(** 3. Replaying never writes the directory: no session of any command emits
+    a directory write, whatever happens; a command that is not `migrate diff`
+    / Planner.Checkpoint never writes it; those two write it once, after the
+    last session was closed, only on success and only with a non-empty plan. *)
 Theorem C14_dir_readonly :
-  forall (ss : list body) (fs : list bool) (d : db) o d' fs' es,
-  run_sessions ss fs d = (o, d', fs', es) -> ~ In EDirWrite es.
+  forall (ss : list sess) (fs rs : list bool) (d : db) o d' fs' rs' es,
+  run_sessions ss fs rs d = (o, d', fs', rs', es) -> ~ In EDirWrite es.
 Proof. exact run_sessions_no_dirwrite. Qed.
 
+Theorem C14_dir_readonly_cmd :
+  forall norm c dir from to changes fs rs d o d' es,
+  run_cmd norm c dir from to changes fs rs d = (o, d', es) ->
+  (writes_dir c = false \/ o <> OOk \/ changes = false) -> ~ In EDirWrite es.
+Proof. exact run_cmd_dir_readonly. Qed.
+
 Theorem C14_dir_written_only_by_plan :
-  forall norm c dir from to changes fs d o d' es,
-  run_cmd norm c dir from to changes fs d = (o, d', es) ->
+  forall norm c dir from to changes fs rs d o d' es,
+  run_cmd norm c dir from to changes fs rs d = (o, d', es) ->
   exists es0, ~ In EDirWrite es0 /\
-    ((es = es0 /\ (c <> CDiff \/ o <> OOk \/ changes = false)) \/
-     (es = es0 ++ [EDirWrite] /\ c = CDiff /\ o = OOk /\ changes = true)).
+    ((es = es0 /\ (writes_dir c = false \/ o <> OOk \/ changes = false)) \/
+     (es = es0 ++ [EDirWrite] /\ writes_dir c = true /\ o = OOk /\ changes = true)).
 Proof. exact run_cmd_dirwrite. Qed.
 
-Print Assumptions C14_clean_gap.
+Print Assumptions C14_clean_sound.
 Print Assumptions C14_clean_coincide.
-Print Assumptions C14_refuse_untouched_refuted.
-Print Assumptions C14_refuse_untouched_except.
+Print Assumptions C14_refuse_untouched.
 Print Assumptions C14_refuse_untouched_cmd.
 Print Assumptions C14_sessions_nonempty.
+Print Assumptions C14_untouched_without_events.
 Print Assumptions C14_handed_back_empty.
 Print Assumptions C14_handed_back_empty_cmd.
+Print Assumptions C14_handed_back_empty_cmd_bookkeeping.
 Print Assumptions C14_restore_always_runs.
 Print Assumptions C14_dir_readonly.
+Print Assumptions C14_dir_readonly_cmd.
 Print Assumptions C14_dir_written_only_by_plan.
 
 (** Non-vacuity. *)
+Definition ex_t0 : bytes := [116; 48]%N.
 Definition ex_i0 : bytes := [105; 48]%N.
 Definition ex_v0 : bytes := [118; 48]%N.
 Definition ex_g0 : bytes := [103; 48]%N.
+Definition ex_libsql : bytes := [108; 105; 98; 115; 113; 108; 95; 117]%N.  (* "libsql_u" *)
+Definition ex_sqlitedb : bytes := [115; 113; 108; 105; 116; 101; 100; 98]%N.  (* "sqlitedb" *)
+Definition ex_seq : bytes :=   (* "sqlite_sequence" *)
+  [115; 113; 108; 105; 116; 101; 95; 115; 101; 113; 117; 101; 110; 99; 101]%N.
 Definition ex_user_db : db :=
   [mkObj KTable ex_t0 ex_t0 3; mkObj KIndex ex_i0 ex_t0 0; mkObj KTrigger ex_g0 ex_t0 0].
+Definition ex_dir : mdir := [mkMFile false [(1, SCreateTable ex_t0); (2, SInsert ex_t0)]].
 Definition ex_dir2 : mdir :=
   [mkMFile false [(1, SCreateTable ex_t0); (2, SCreateIndex ex_i0 ex_t0); (3, SCreateView ex_v0)];
    mkMFile false [(4, SCreateTrigger ex_g0 ex_t0); (5, SInsert ex_t0); (6, SInsert ex_t0); (7, SDropTable ex_t0)]].
 
-(* a user database is refused, untouched *)
-Example C14_refuse_nonvacuous :
-  code_clean ex_user_db = false /\ code_clean [mkObj KView ex_v0 ex_v0 0] = false /\
-  run_cmd false (CLint 1) ex_dir2 SrcNone SrcNone false [] ex_user_db = (ORefused, ex_user_db, []).
+(* the verdicts: the former witnesses of the hole are refused, the residue of
+   AUTOINCREMENT tables is accepted *)
+Example C14_clean_nonvacuous :
+  code_clean [mkObj KTable ex_libsql ex_libsql 2] = false /\
+  code_clean [mkObj KTable ex_sqlitedb ex_sqlitedb 1; mkObj KIndex ex_i0 ex_sqlitedb 0] = false /\
+  code_clean [mkObj KView ex_v0 ex_v0 0] = false /\
+  code_clean [mkObj KTable ex_seq ex_seq 0] = true /\ code_clean [mkObj KTable b_wasm b_wasm 0] = true /\
+  hidden_name ex_libsql = true /\ hidden_name ex_sqlitedb = true.
 Proof. vm_compute. repeat split. Qed.
 
+(* a user database -- also one the inspection cannot see -- is refused, untouched *)
+Example C14_refuse_nonvacuous :
+  run_cmd NoNorm (CLint 1) ex_dir2 SrcNone SrcNone false [] [] ex_user_db = (ORefused, ex_user_db, []) /\
+  run_cmd NoNorm CValidate ex_dir SrcNone SrcNone false [] [] [mkObj KTable ex_libsql ex_libsql 2]
+    = (ORefused, [mkObj KTable ex_libsql ex_libsql 2], []).
+Proof. vm_compute. split; reflexivity. Qed.
+
 (* statement 6 (second insert: UNIQUE violation) fails with a table, an index,
-   a view, a trigger and a row in place; everything is gone afterwards *)
+   a view, a trigger and a row in place; everything is gone afterwards; the
+   same from a database holding the sqlite_sequence residue *)
 Example C14_handed_back_nonvacuous :
-  run_cmd false CValidate ex_dir2 SrcNone SrcNone false [] [] =
+  run_cmd NoNorm CValidate ex_dir2 SrcNone SrcNone false [] [] [] =
     (OFail 6, [], [EWrite 1 true; EWrite 2 true; EWrite 3 true; EWrite 4 true; EWrite 5 true;
-                   EWrite 6 false; ERestore]).
+                   EWrite 6 false; ERestore 4]) /\
+  run_cmd NoNorm CValidate ex_dir SrcNone SrcNone false [] [] [mkObj KTable ex_seq ex_seq 0] =
+    (OOk, [], [EWrite 1 true; EWrite 2 true; ERestore 4]).
+Proof. vm_compute. split; reflexivity. Qed.
+
+(* a failing restore: DELETE fails -> the table stays and the error is reported;
+   VACUUM fails -> empty, error reported; through NormalizeSchema the error is
+   dropped and the next session refuses the dirty database *)
+Example C14_restore_fault_nonvacuous :
+  run_cmd NoNorm CValidate ex_dir SrcNone SrcNone false [] [false; true] [] =
+    (ORestoreFail, [mkObj KTable ex_t0 ex_t0 1], [EWrite 1 true; EWrite 2 true; ERestore 1]) /\
+  run_cmd NoNorm CValidate ex_dir SrcNone SrcNone false [] [false; false; false; true] [] =
+    (ORestoreFail, [], [EWrite 1 true; EWrite 2 true; ERestore 3]) /\
+  run_cmd NormSchema CSchemaDiff [] (SrcHCL [mkHTable 1 ex_t0 []]) (SrcHCL [mkHTable 2 ex_t0 []])
+          false [] [true] [] =
+    (ORefused, [mkObj KTable ex_t0 ex_t0 0], [EWrite 1 true; ERestore 0]).
+Proof. vm_compute. repeat split. Qed.
+
+(* nothing succeeded (read-only connection): nothing changed *)
+Example C14_untouched_nonvacuous :
+  run_cmd NoNorm CValidate ex_dir SrcNone SrcNone false [true] [true] [] =
+    (OFail 1, [], [EWrite 1 false; ERestore 0]).
 Proof. vm_compute. reflexivity. Qed.
 
-(* migrate diff against an SQL schema: two sessions, then the plan is written *)
+(* migrate diff against an SQL schema: two sessions, then the plan is written;
+   against an HCL schema on a normalising driver: replay, then normalise *)
 Example C14_dir_nonvacuous :
-  run_cmd false CDiff [mkMFile false [(1, SCreateTable ex_t0)]] SrcNone
-          (SrcSQL [(2, SCreateTable ex_t0); (3, SCreateView ex_v0)]) true [] [] =
-    (OOk, [], [EWrite 2 true; EWrite 3 true; ERestore; EWrite 1 true; ERestore; EDirWrite]).
-Proof. vm_compute. reflexivity. Qed.
+  run_cmd NoNorm CDiff [mkMFile false [(1, SCreateTable ex_t0)]] SrcNone
+          (SrcSQL [(2, SCreateTable ex_t0); (3, SCreateView ex_v0)]) true [] [] [] =
+    (OOk, [], [EWrite 2 true; EWrite 3 true; ERestore 4; EWrite 1 true; ERestore 4; EDirWrite]) /\
+  run_cmd NormRealm CDiff [mkMFile false [(1, SCreateTable ex_t0)]] SrcNone
+          (SrcHCL [mkHTable 2 ex_t0 [(3, ex_i0)]]) true [] [] [] =
+    (OOk, [], [EWrite 1 true; ERestore 4; EWrite 2 true; EWrite 3 true; ERestore 4; EDirWrite]) /\
+  run_cmd NoNorm CCheckpoint [mkMFile false [(1, SCreateTable ex_t0)]] SrcNone SrcNone true [] [] [] =
+    (OOk, [], [EWrite 1 true; ERestore 4; EDirWrite]) /\
+  run_cmd NoNorm CSchemaInspect [] (SrcSQL [(1, SCreateTable ex_t0)]) SrcNone true [] [] [] =
+    (OOk, [], [EWrite 1 true; ERestore 4]).
+Proof. vm_compute. repeat split. Qed.
 
 (* lint restores in mid-session before a checkpoint file *)
 Example C14_lint_checkpoint_nonvacuous :
-  run_cmd false (CLint 2) [mkMFile false [(1, SCreateTable ex_t0)];
-                           mkMFile true [(2, SCreateTable ex_t0)]] SrcNone SrcNone false [true; false] [] =
-    (OFail 1, [], [EWrite 1 false; ERestore]) /\
-  run_cmd false (CLint 2) [mkMFile false [(1, SCreateTable ex_t0)];
-                           mkMFile true [(2, SCreateTable ex_t0)]] SrcNone SrcNone false [] [] =
-    (OOk, [], [EWrite 1 true; ERestore; EWrite 2 true; ERestore]).
-Proof. vm_compute. split; reflexivity. Qed.
+  run_cmd NoNorm (CLint 2) [mkMFile false [(1, SCreateTable ex_t0)];
+                            mkMFile true [(2, SCreateTable ex_t0)]] SrcNone SrcNone false [true; false] [] [] =
+    (OFail 1, [], [EWrite 1 false; ERestore 4]) /\
+  run_cmd NoNorm (CLint 2) [mkMFile false [(1, SCreateTable ex_t0)];
+                            mkMFile true [(2, SCreateTable ex_t0)]] SrcNone SrcNone false [] [] [] =
+    (OOk, [], [EWrite 1 true; ERestore 4; EWrite 2 true; ERestore 4]) /\
+  run_cmd NoNorm (CLint 2) [mkMFile false [(1, SCreateTable ex_t0)];
+                            mkMFile true [(2, SCreateTable ex_t0)]] SrcNone SrcNone false [] [true] [] =
+    (ORestoreFail, [], [EWrite 1 true; ERestore 0; ERestore 4]).
+Proof. vm_compute. repeat split. Qed.
